@@ -158,6 +158,12 @@ fn case(t0: &mut Tape, w: &Worker) -> CaseResult {
         RunMode::CheckStatsStdout => vec!["check".into(), "all".into(), "its".into(), "-S".into(), "stdout".into(), "-D".into(), if ot.chance(1, 2) { "json".into() } else { "toml".into() }],
         RunMode::CheckAllIts => vec!["check".into(), "all".into(), "its".into()],
     };
+    // a filter plus an output destination next to a check or a view (the tool ignores the output then): a third of those runs
+    if matches!(mode, RunMode::ViewRdh | RunMode::ViewFrames | RunMode::ViewData | RunMode::CheckAllIts) && ot.chance(1, 3) {
+        args.extend(filter.args());
+        args.extend(["-o".to_string(), w.path("ignored_out.raw").display().to_string()]);
+        out.labels.push("opt:filter+ignored_output".into());
+    }
     let e_code = 1 + ot.below(255);
     if ot.chance(1, 2) {
         args.push("-E".into());
@@ -430,7 +436,7 @@ pub fn build() -> Property {
     Property {
         id: "C17",
         rule: "Fault schedules: stop kind {SIGINT, SIGTERM at a delay drawn from [0, 1.2 x measured run time]; stdout closed after N bytes (0, 1, 100, 4096, 65536, random); error cap -e N with errors on every third packet; \
-               fatal framing error at a random packet} x mode {three views +-d, filtered write to stdout / file, check with statistics to stdout, check all its} x source {file, pipe fed in 64 KiB chunks} x \
+               fatal framing error at a random packet} x mode {three views +-d, filtered write to stdout / file, check with statistics to stdout, check all its; a third of the view / check runs with a filter and an (ignored) -o destination} x source {file, pipe fed in 64 KiB chunks} x \
                perturbation {off, random, slow validator, slow collector, slow writer} x input size 0.1..8 MB (conforming G_conf stream replicated with shifted orbits so that queues fill). \
                Oracle: the process exits by itself within the watchdog (all threads joined), no panic text, no terminating signal, exit in {0,1,n}; a partial -o file is a prefix of the expected filtered output made of whole packets. \
                Non-trivial = the stop provably landed mid-run (process alive when signalled / pipe closed before EOF of the baseline output / cap below the error count / fatal message seen). \
